@@ -48,8 +48,14 @@ def main():
         except Exception as e:
             ctx.tie_broken("T-src", {"error": str(e)[-2000:]})
     lean = common.lean_obligations(pid, tier)
+    # per-area harnesses (own cargo workspaces and caches) are used by one check run at a time; the shared suites
+    # (suites.py) take finer-grained locks of their own, and T-gen (used by C01, C07, C16, C20) has its own lock
+    area = {"C15": "acc", "C17": "acc", "C18": "acc", "C16": "c16", "C20": "c20", "C11": "c11",
+            "C12": "text", "C13": "text", "C14": "text"}.get(pid)
+    import contextlib
     try:
-        P.CHECKS[pid](ctx)
+        with (suites.workspace_lock("area_" + area) if area else contextlib.nullcontext()):
+            P.CHECKS[pid](ctx)
     except Exception as e:  # a broken runner is a broken tie, reported as such
         ctx.tie_broken("harness", {"error": str(e)[-3000:], "trace": traceback.format_exc()[-2000:]})
     # verdict
